@@ -70,6 +70,9 @@ type FaultPlan struct {
 	Stall         bool `json:"stall"`      // allow HTTP stalls (timeouts)
 	LostAck       bool `json:"lost_ack"`   // allow drop-after on PG
 	HTTPKinds     int  `json:"http_kinds"` // bitmask of enabled HTTP fault kinds
+	// Reconfig: a restart may come back with another batch size and
+	// concurrency (the operator edited the configuration while it was down)
+	Reconfig bool `json:"reconfig,omitempty"`
 }
 
 type Plan struct {
